@@ -8,10 +8,17 @@ abstract state and consumes the same random draws as a fit without logging — g
 correspondence harness checks on the real code at every logged iteration:
   (H1) reading through `model.state` (what every logging action does) does not change the abstract state;
   (H2) logging takes no draw from the random streams.
-Global generator state, the file system and matplotlib are runtime facts; they are covered only by the
-differential runs (bitwise comparison of real seeded fits / personalisations / simulations).
+The file system and matplotlib are runtime facts; they are covered only by the differential runs (bitwise comparison of
+real seeded fits / personalisations / simulations).
+
+Second part ("the random-draw discipline", `Model/Draws.lean`): the global generators are no longer outside the model.  Every
+seeded run of the harness is recorded as a draw program (every seeding, state read / write and draw of python `random`, numpy
+and torch, with its call site); the theorems below say what the two decidable predicates evaluated on that program give:
+`seededFirst` — the result does not depend on the generator states the process had before the run, for ANY interpretation of
+the generators as streams; `noLoggingDraws` — hypothesis (H2) above.
 -/
 import LeaspyVerif.Model.Api
+import LeaspyVerif.Lemmas.Draws
 
 namespace LeaspyVerif.C11
 open LeaspyVerif.Api
@@ -186,5 +193,148 @@ example :
     (runFit step good sched 0 4 (0, 0) [1, 2, 3, 4, 5]).1.1 = (runFit step good (fun _ => []) 0 4 (0, 0) [1, 2, 3, 4, 5]).1.1
       ∧ (runFit step bad sched 0 4 (0, 0) [1, 2, 3, 4, 5]).1.1 ≠ (runFit step bad (fun _ => []) 0 4 (0, 0) [1, 2, 3, 4, 5]).1.1 := by
   decide
+
+/-! ## The random-draw discipline (`Model/Draws.lean`)
+
+A recorded run is a `Prog`; the code that produced it is a `Code` (a deterministic function of the values it drew).
+`I : Interp S V` is an arbitrary interpretation of the generators as streams, `World S` the generator states (and state
+snapshots, and entropy) the process holds when the run starts — its history. -/
+
+section draws
+open LeaspyVerif.Draws
+
+/-- **Process history is irrelevant to a seeded-first run.**  If every draw of the program is from a generator that the
+    program itself seeded before (`seededFirst`, decided on the recorded run), the values it draws are the same from any two
+    worlds: whatever random numbers were consumed beforehand, whatever was fitted earlier, whatever state snapshots lie around. -/
+theorem seeded_prefix_irrelevant {S V : Type} (I : Interp S V) (seed : Nat) (p : Prog) (h : seededFirst p = true)
+    (w w' : Draws.World S) : draws I seed w p = draws I seed w' p := by
+  have hb : firstBadOps Known.nothing 0 p.ops = none := by
+    simpa [seededFirst, firstBad, Option.isNone_iff_eq_none] using h
+  exact execOps_agree I seed p.ops Known.nothing 0 w w' hb (agree_nothing w w')
+
+/-- F32, the code as shipped: a fit with `initialization_method="random"` drew its initial values before `algorithm.run`
+    seeded the generators.  The program is rejected by `seededFirst`, and its draws do depend on history. -/
+theorem seeded_prefix_irrelevant_counterexample :
+    seededFirst shippedRandomInitFit = false
+      ∧ firstBad shippedRandomInitFit = some 0
+      ∧ draws toyInterp 3 (worldOf 0) shippedRandomInitFit ≠ draws toyInterp 3 (worldOf 5) shippedRandomInitFit
+      ∧ seededFirst repairedRandomInitFit = true := by
+  decide
+
+/-- A generator that is drawn from but never seeded (`_initialize_seed` without numpy, `simulate` being the only consumer):
+    rejected, and history-dependent although the two other generators were seeded. -/
+theorem unseeded_generator_counterexample :
+    seededFirst numpyUnseededSimulate = false
+      ∧ firstBad numpyUnseededSimulate = some 2
+      ∧ draws toyInterp 3 (worldOf 0) numpyUnseededSimulate ≠ draws toyInterp 3 (worldOf 5) numpyUnseededSimulate := by
+  decide
+
+/-- Seeding from the clock / the OS after the seed of the run, or restoring a state snapshot that was not taken in this run,
+    is rejected as well (the draw that follows is the defect). -/
+theorem entropy_and_foreign_state_counterexample :
+    firstBad [⟨.algorithm, .seed 2 .run⟩, ⟨.sampler, .entropy 2⟩, ⟨.sampler, .draw 2 1 1⟩] = some 2
+      ∧ firstBad [⟨.algorithm, .seed 2 .run⟩, ⟨.sampler, .restore 2 0⟩, ⟨.sampler, .draw 2 1 1⟩] = some 2
+      ∧ firstBad [⟨.algorithm, .seed 2 .run⟩, ⟨.sampler, .save 2 0⟩, ⟨.sampler, .draw 2 1 1⟩, ⟨.sampler, .restore 2 0⟩,
+                  ⟨.sampler, .draw 2 1 1⟩] = none
+      ∧ draws toyInterp 3 (worldOf 0) [⟨.algorithm, .seed 2 .run⟩, ⟨.sampler, .restore 2 0⟩, ⟨.sampler, .draw 2 1 1⟩]
+          ≠ draws toyInterp 3 (worldOf 5) [⟨.algorithm, .seed 2 .run⟩, ⟨.sampler, .restore 2 0⟩, ⟨.sampler, .draw 2 1 1⟩] := by
+  decide
+
+/-- **Markers are transparent.**  Two programs that differ only by inserted events that are not generator events (the logging
+    actions of `FitOutputManager`, recorded as notes) end in the same world and draw the same values. -/
+theorem draws_logging_transparent {S V : Type} (I : Interp S V) (seed : Nat) (p q : Prog)
+    (h : (strip p).ops = (strip q).ops) (w : Draws.World S) : exec I seed w p = exec I seed w q := by
+  simp only [exec]
+  rw [← execOps_filter_inert I seed p.ops w, ← execOps_filter_inert I seed q.ops w, ← strip_ops, ← strip_ops, h]
+
+/-- **What the harness checks.**  If the generator events of two recorded runs are identical (whatever their logging
+    markers) and one of them is seeded-first, then so is the other, and the two runs draw the same values from ANY two worlds
+    under EVERY interpretation of the generators: different logging settings and different process histories cannot matter. -/
+theorem same_draw_events_same_draws (p q : Prog) (h : (strip p).ops = (strip q).ops) (hp : seededFirst p = true) :
+    seededFirst q = true
+      ∧ ∀ {S V : Type} (I : Interp S V) (seed : Nat) (w w' : Draws.World S), draws I seed w p = draws I seed w' q := by
+  have hq : seededFirst q = true := by
+    simp only [seededFirst, firstBad] at hp ⊢
+    rw [← firstBadOps_filter_inert q.ops Known.nothing 0 0, ← strip_ops, ← h, strip_ops,
+      firstBadOps_filter_inert p.ops Known.nothing 0 0]
+    exact hp
+  refine ⟨hq, ?_⟩
+  intro S V I seed w w'
+  simp only [draws]
+  rw [draws_logging_transparent I seed p q h w]
+  exact seeded_prefix_irrelevant I seed q hq w w'
+
+/-- **The result is a function of the seed and the code.**  The code is any deterministic consumer of the values it draws
+    (the number and kind of later draws may depend on earlier values).  If the program RECORDED on one run is seeded-first,
+    then from every other world the code records the same program, draws the same values and returns the same result. -/
+theorem draw_program_determines_result {S V R : Type} (I : Interp S V) (seed : Nat) (c : Code V R) (w : Draws.World S)
+    (h : seededFirst (runCode I seed c w).1 = true) (w' : Draws.World S) :
+    runCode I seed c w' = runCode I seed c w := by
+  have hb : firstBadOps Known.nothing 0 (runCode I seed c w).1.ops = none := by
+    simpa [seededFirst, firstBad, Option.isNone_iff_eq_none] using h
+  exact runCode_agree I seed c Known.nothing 0 w w' hb (agree_nothing w w')
+
+/-- The recorded program is a faithful summary of the run: replayed from the same world it yields the values the code drew. -/
+theorem recorded_program_replays {S V R : Type} (I : Interp S V) (seed : Nat) (c : Code V R) (w : Draws.World S) :
+    draws I seed w (runCode I seed c w).1 = (runCode I seed c w).2.1 :=
+  runCode_trace I seed c w
+
+/-- What `noLoggingDraws` decides: no event whose call site is logging code moves a generator. -/
+theorem noLoggingDraws_iff (p : Prog) :
+    noLoggingDraws p = true ↔ ∀ e ∈ p, e.site = .logging → e.op.moves = false := by
+  simp only [noLoggingDraws, loggingDraws, beq_iff_eq, List.length_eq_zero_iff, List.filter_eq_nil_iff, Ev.loggingMove,
+    Bool.and_eq_true, decide_eq_true_eq, not_and, Bool.not_eq_true]
+
+private theorem noLoggingDraws_sublist {p q : Prog} (hs : q.Sublist p) (h : noLoggingDraws p = true) :
+    noLoggingDraws q = true := by
+  rw [noLoggingDraws_iff] at h ⊢
+  exact fun e he => h e (hs.subset he)
+
+/-- **Bridge: (H2) of `logging_transparent` is decided on the recorded run.**  Let `prog` be the program recorded on a real
+    fit with `noLoggingDraws prog = true`, and let every logging action execute some of its logging-site events (`lp a s` a
+    sub-list of them).  Then the action `actOfProg` — the single stream of `runFit` being the state of generator `g` — takes no
+    draw: exactly hypothesis `hnodraw` of `logging_transparent`. -/
+theorem h2_of_noLoggingDraws {St D V : Type} (I : Interp (List D) V) (seed g : Nat) (bg : Draws.World (List D))
+    (read : Action → St → St) (lp : Action → St → Prog) (prog : Prog) (hprog : noLoggingDraws prog = true)
+    (hsub : ∀ a s, (lp a s).Sublist (prog.filter (fun e => decide (e.site = .logging)))) :
+    ∀ a s d, (actOfProg I seed g bg read lp a s d).2 = d := by
+  intro a s d
+  have hall : ∀ e ∈ lp a s, e.site = .logging := by
+    intro e he
+    have := (hsub a s).subset he
+    simpa using (List.mem_filter.1 this).2
+  have hno : noLoggingDraws (lp a s) = true :=
+    noLoggingDraws_sublist ((hsub a s).trans List.filter_sublist) hprog
+  have := (exec_logging_noop I seed (lp a s) { bg with gen := upd bg.gen g d } hall hno).1
+  simp only [actOfProg, this]
+  exact upd_same bg.gen g d
+
+/-- `logging_transparent` with (H2) discharged by the recorded run: for any two logging schedules a fit of any length ends in
+    abstractly equal states with the same generator state, given (H1) only. -/
+theorem logging_transparent_recorded {St A D V : Type} (abs : St → A) (step : Nat → St → List D → St × List D)
+    (hstep : ∀ k s s' d, abs s = abs s' → abs (step k s d).1 = abs (step k s' d).1 ∧ (step k s d).2 = (step k s' d).2)
+    (I : Interp (List D) V) (seed g : Nat) (bg : Draws.World (List D)) (read : Action → St → St) (lp : Action → St → Prog)
+    (hread : ∀ a s, abs (read a s) = abs s)
+    (prog : Prog) (hprog : noLoggingDraws prog = true)
+    (hsub : ∀ a s, (lp a s).Sublist (prog.filter (fun e => decide (e.site = .logging))))
+    (sched sched' : Nat → List Action) (n k : Nat) (s s' : St) (d : List D) (h0 : abs s = abs s') :
+    abs (runFit step (actOfProg I seed g bg read lp) sched k n s d).1
+        = abs (runFit step (actOfProg I seed g bg read lp) sched' k n s' d).1
+      ∧ (runFit step (actOfProg I seed g bg read lp) sched k n s d).2
+        = (runFit step (actOfProg I seed g bg read lp) sched' k n s' d).2 :=
+  logging_transparent abs step (actOfProg I seed g bg read lp) hstep (fun a s _ => hread a s)
+    (h2_of_noLoggingDraws I seed g bg read lp prog hprog hsub) sched sched' n k s s' d h0
+
+/-- Non-vacuity: the shape recorded on a real seeded fit with logging (three seedings, draws by the algorithm and the
+    samplers, logging markers in between) satisfies both predicates; a `torch.randperm` inside a patient plot (the seeded
+    change C11) is counted by `loggingDraws` although the generator it draws from was seeded. -/
+example :
+    seededFirst repairedRandomInitFit = true ∧ noLoggingDraws repairedRandomInitFit = true
+      ∧ gensUsed repairedRandomInitFit = [2, 0]
+      ∧ (let bad : Prog := [⟨.algorithm, .seed 2 .run⟩, ⟨.sampler, .draw 2 1 1⟩, ⟨.logging, .note 2⟩, ⟨.logging, .draw 2 9 5⟩]
+         seededFirst bad = true ∧ loggingDraws bad = 1) := by
+  decide
+
+end draws
 
 end LeaspyVerif.C11
